@@ -1,0 +1,31 @@
+//! Verification hooks (feature `verif-hooks`, off by default).
+//!
+//! Add-only re-exports of items that exist in the crate but cannot be named
+//! from outside it, so that the out-of-tree solver harnesses can drive each
+//! kernel directly. Nothing here adds behaviour.
+
+pub use crate::util::broadword::{
+    select_in_word_broadword, verif_select_in_word_ctz as select_in_word_ctz,
+};
+pub use crate::util::table::select_in_byte;
+
+#[cfg(target_arch = "x86_64")]
+pub use crate::bits::verif_block_popcount_avx2 as block_popcount_avx2;
+#[cfg(target_arch = "x86_64")]
+pub use crate::util::simd::x86::{select_in_word_pdep, toggle64_bmi2};
+
+/// `util::simd::quote_mask::prefix_xor` (crate-private).
+#[cfg(any(target_arch = "aarch64", target_arch = "x86_64"))]
+#[inline]
+pub fn prefix_xor(x: u64) -> u64 {
+    crate::util::simd::quote_mask::prefix_xor(x)
+}
+
+/// `util::simd::quote_mask::toggle64_scalar` (crate-private).
+#[cfg(any(target_arch = "aarch64", target_arch = "x86_64"))]
+#[inline]
+pub fn toggle64_scalar(carry: u64, quote_mask: u64) -> (u64, u64) {
+    crate::util::simd::quote_mask::toggle64_scalar(carry, quote_mask)
+}
+
+pub use crate::util::simd::{popcount_512, popcount_512_scalar};
